@@ -11,6 +11,7 @@ import (
 	"github.com/ethereum/go-ethereum/common/bitutil"
 	ethtypes "github.com/ethereum/go-ethereum/core/types"
 	"github.com/ethereum/go-ethereum/crypto"
+	"github.com/ontio/ontology/core/store"
 	"github.com/ontio/ontology/core/store/ledgerstore"
 	"github.com/ontio/ontology/core/types"
 	"github.com/ontio/ontology/smartcontract/event"
@@ -47,7 +48,7 @@ func bloomBit(b ethtypes.Bloom, i int) bool {
 
 func main() {
 	r := vf.NewRun("C43", "exploration",
-		"a solo chain whose blocks carry (in ~6% of blocks) 1-4 EVM calls into generated LOG0..LOG4 contracts with random topics/data, plus failing calls and plain transfers; for every committed block each log reported by the stored events and each log expected by construction must hit the stored bloom (address and every topic); at each completed 4096-block section every one of the 2048 bit vectors must equal, bit for bit, the per-block blooms it was built from; restarts inside and exactly at the end of a section. distinct by (height, number of logs)")
+		"a solo chain whose blocks carry (in ~6% of blocks) 1-4 EVM calls into generated LOG0..LOG4 contracts with random topics/data, plus failing calls and plain transfers; for every committed block each log reported by the stored events and each log expected by construction must hit the stored bloom (address and every topic); at each completed 4096-block section every one of the 2048 bit vectors must equal, bit for bit, the per-block blooms it was built from; restarts inside and exactly at the end of a section; on a quarter of the log-carrying blocks and at the section boundaries a first commit attempt (of the same block, or of another block of that height) fails inside submitBlock after the block store batch was filled (cross chain store closed -> error returned, or a recovered panic at the verif crash point), through SubmitBlock or AddBlock, and the block is then added again in the same process. distinct by (height, number of logs, fault plan)")
 	scratch := vf.Scratch("c43")
 	defer os.RemoveAll(scratch)
 	rng := vf.NewRNG(vf.Seed())
@@ -74,6 +75,7 @@ func main() {
 		sub := rng.Sub(uint64(h))
 		var txs []*types.Transaction
 		var expect []expLog
+		logBlock := false
 		switch {
 		case h == 1:
 			txs = w.FundingTxs()
@@ -88,6 +90,7 @@ func main() {
 				txs = append(txs, t)
 			}
 		case sub.Chance(6) || h%4096 >= 4093 || h%4096 <= 1:
+			logBlock = true
 			n := 1 + sub.Intn(4)
 			for i := 0; i < n; i++ {
 				k := sub.Intn(5)
@@ -129,9 +132,71 @@ func main() {
 		if err != nil {
 			panic(err)
 		}
-		res, err := c.CommitExec(b)
-		if err != nil {
-			panic(fmt.Errorf("block %d: %v", h, err))
+		// fault-then-retry (fault.go): on some log-carrying blocks, and on the first, the last and the last but one
+		// block of a section, a commit attempt fails inside submitBlock first; the node stays up
+		var plan *faultPlan
+		fsub := rng.Sub(uint64(h) + 1<<40)
+		sectionEnd := (h+1)%ledgerstore.BloomBitsBlocks == 0
+		if logBlock && (fsub.Chance(25) || h%ledgerstore.BloomBitsBlocks >= ledgerstore.BloomBitsBlocks-2 || h%ledgerstore.BloomBitsBlocks == 0) {
+			p := planFault(fsub, len(txs))
+			if sectionEnd {
+				p.prior = "same"
+				p.kind = []string{"ccstore", "hookpanic"}[(h/ledgerstore.BloomBitsBlocks)%2]
+			}
+			plan = &p
+		}
+		var res store.ExecuteResult
+		if plan != nil {
+			msg, err := crossChainMsgFor(c)
+			if err != nil {
+				panic(err)
+			}
+			fb := b
+			if plan.prior == "other" {
+				if fb, err = c.MakeBlock(txs[:len(txs)-1], 0); err != nil {
+					panic(err)
+				}
+			}
+			fres, err := c.Ledger.ExecuteBlock(fb)
+			if err != nil {
+				panic(fmt.Errorf("block %d (attempt that is to fail): %v", h, err))
+			}
+			if ok, why := failOnce(c, *plan, fb, msg, fres); !ok {
+				r.Inconclusive(fmt.Sprintf("height %d fault %s: %s", h, plan, why))
+				plan = nil
+			} else {
+				r.Count("fault_then_retry")
+				r.Count("fault_kind/" + plan.kind)
+				r.Count("fault_path/" + plan.path)
+				r.Count("fault_prior/" + plan.prior)
+				if sectionEnd {
+					r.Count("fault_then_retry_at_section_end")
+				}
+				if fres.Bloom != (ethtypes.Bloom{}) {
+					r.Count("fault_attempt_had_nonempty_bloom")
+				}
+			}
+			if res, err = c.Ledger.ExecuteBlock(b); err == nil {
+				path := "submit"
+				if plan != nil {
+					path = plan.path
+				}
+				err = commitVia(c, path, b, msg, res)
+			}
+			if err != nil {
+				// the property says nothing about whether a retry succeeds; the chain cannot go on without it
+				r.Inconclusive(fmt.Sprintf("height %d: adding the block again after the injected fault fails: %v", h, err))
+				break
+			}
+			if got := c.Ledger.GetCurrentBlockHeight(); got != uint32(h) {
+				r.Inconclusive(fmt.Sprintf("height %d: current height %d after the retry", h, got))
+				break
+			}
+		} else {
+			res, err = c.CommitExec(b)
+			if err != nil {
+				panic(fmt.Errorf("block %d: %v", h, err))
+			}
 		}
 		bl, err := c.Ledger.GetBloomData(uint32(h))
 		if err != nil {
@@ -201,7 +266,14 @@ func main() {
 			}
 			r.Count("expected_log_checked")
 		}
-		if nlogs > 0 {
+		if plan != nil && nlogs > 0 {
+			r.Count("fault_then_retry_block_with_logs")
+			r.Add("fault_then_retry_logs_checked", int64(nlogs))
+			r.Eval(fmt.Sprintf("%d/%d/%s", h, nlogs, plan))
+			if r.Counter("fault_then_retry_block_with_logs") <= 3 {
+				r.Sample(map[string]interface{}{"height": h, "logs": nlogs, "txs": len(txs), "fault_then_retry": plan.String()})
+			}
+		} else if nlogs > 0 {
 			r.Eval(fmt.Sprintf("%d/%d", h, nlogs))
 			if nlogs >= 2 {
 				r.Sample(map[string]interface{}{"height": h, "logs": nlogs, "txs": len(txs)})
@@ -224,10 +296,12 @@ func main() {
 			for s := 0; s < (h+1)/ledgerstore.BloomBitsBlocks; s++ {
 				checkSection(r, c, uint32(s), blooms, "after-restart")
 			}
-			for _, hh := range []int{h, h - 1, h / 2, 2} {
+			for hh := 0; hh <= h; hh++ {
 				if b2, _ := c.Ledger.GetBloomData(uint32(hh)); b2 != blooms[hh] {
 					r.Violation("bloom-changed-by-restart", "", map[string]interface{}{"height": hh})
+					break
 				}
+				r.Count("bloom_reread_after_restart")
 			}
 		}
 	}
@@ -238,6 +312,17 @@ func main() {
 	r.Require("failing_log_call", 5)
 	r.Require("section_bits_compared/live", 2048)
 	r.Require("restarts", 1)
+	r.Require("bloom_reread_after_restart", 3000)
+	r.Require("fault_then_retry", 20)
+	r.Require("fault_then_retry_block_with_logs", 15)
+	r.Require("fault_attempt_had_nonempty_bloom", 15)
+	r.Require("fault_kind/ccstore", 5)
+	r.Require("fault_kind/hookpanic", 3)
+	r.Require("fault_path/submit", 3)
+	r.Require("fault_path/add", 3)
+	r.Require("fault_prior/same", 5)
+	r.Require("fault_prior/other", 3)
+	r.Require("fault_then_retry_at_section_end", 1)
 	if vf.Thorough() {
 		r.Require("section_bits_compared/after-restart", 3*2048)
 	}
